@@ -410,6 +410,8 @@ void mmd_export_header_opml(DString * out, const char * source, token * t, scrat
 
 		while (walker) {
 			switch (walker->type) {
+				case TEXT_LINEBREAK:
+				case TEXT_LINEBREAK_SP:
 				case TEXT_NL:
 				case TEXT_NL_SP:
 				case INDENT_TAB:
